@@ -343,8 +343,9 @@ func (o *oC02) OnEvent(k *Kernel, ev *Event) {
 		k.Violate("C02", "warc-structure", "malformed-record", e)
 	}
 	o.idx.Errs = nil
-	for f, e := range o.idx.TailErr {
-		k.Violate("C02", "warc-structure", "incomplete-member-while-running", f+": "+e)
+	// an incomplete member at the tail of a file is a write in progress for some other seed: only complete members count here
+	if len(o.idx.TailErr) > 0 {
+		k.Probe("c02-write-in-progress-at-finish")
 	}
 	o.checkSeed(k, nm)
 }
@@ -354,9 +355,14 @@ func (o *oC02) checkSeed(k *Kernel, nm string) {
 		if ex.entry == nil || ex.err || ex.status == 0 {
 			continue // no response reached the crawler
 		}
-		if !ex.entry.Complete {
+		if !ex.entry.Complete && ex.entry.Fault != "" {
+			// the fault plan cut this exchange short: it may be absent or present, never present with other bytes
 			k.Probe("c02-relaxed-faulted-exchange")
 			continue
+		}
+		if !ex.entry.Complete {
+			// nothing was injected: the crawler itself stopped reading a response it then accepted
+			k.Probe("c02-response-abandoned-by-client")
 		}
 		var req, resp, rev, wrong []*WarcRec
 		for _, rec := range o.idx.Recs {
